@@ -18,6 +18,8 @@ type entry struct {
 
 var table = map[string]entry{
 	"C02": {"exploration", checks.C02},
+	"C03": {"exploration", checks.C03},
+	"C04": {"exploration", checks.C04},
 	"C05": {"exploration", checks.C05},
 	"C12": {"exploration", checks.C12},
 	"C13": {"exploration", checks.C13},
